@@ -451,10 +451,13 @@ func (b *Board) IsPseudoLegal(m move.Move) bool {
 			return false
 		}
 
-		if RankBB(SeventhRank.FromPerspectiveOf(b.STM))&fromBB != 0 {
-			if m.Promo() == NoPiece {
-				return false
-			}
+		// a promotion piece (knight..queen) is required exactly when the pawn
+		// moves from its seventh rank
+		if (RankBB(SeventhRank.FromPerspectiveOf(b.STM))&fromBB != 0) != (m.Promo() != NoPiece) {
+			return false
+		}
+		if m.Promo() != NoPiece && (m.Promo() < Knight || m.Promo() > Queen) {
+			return false
 		}
 
 		switch Abs(from.File() - to.File()) {
